@@ -89,6 +89,33 @@ def units(rng, tier):
                     z.insert(rng.randint(0, len(z)), 0)
                 if a not in ("dp", "ilp") or len(z) <= 8:
                     us.append(tag(part(rng, a, kk, z, fam, **kw), grp, "zeros"))
+    # planted PERFECT partitions (total divisible by the number of bins, every bin exactly T): where the bounds of the searches are tight and
+    # an off-by-one in a bound or a tie changes the answer for some scale factors only; complete greedy under every objective and random switches
+    for _ in range(80 if tier == "quick" else 900):
+        k = rng.choice([2, 3, 3, 4])
+        T = rng.randint(6, 40)
+        v = []
+        for _b in range(k):
+            rest = T
+            for _j in range(rng.randint(0, 2)):
+                if rest <= 1:
+                    break
+                x = rng.randint(1, rest - 1)
+                v.append(x)
+                rest -= x
+            v.append(rest)
+        v = v[:8]
+        rng.shuffle(v)
+        _gid[0] += 1
+        kw = {"objective": rng.choice([[0, 0], [1, 0], [1, 0], [2, 0]]), "flags": [rng.randint(0, 1) for _ in range(4)]}
+        grp = f"{_gid[0]}/cg"
+        us.append(tag(part(rng, "cg", k, v, "planted-perfect-symmetries", **kw), grp, "base"))
+        us.append(tag(part(rng, "cg", k, perm(rng, v), "planted-perfect-symmetries", **kw), grp, "perm"))
+        c = rng.choice(SCALES)
+        us.append(tag(part(rng, "cg", k, [x * c for x in v], "planted-perfect-symmetries", **kw), grp, "scale", factor=c))
+        z = list(v)
+        z.insert(rng.randint(0, len(z)), 0)
+        us.append(tag(part(rng, "cg", k, z, "planted-perfect-symmetries", **kw), grp, "zeros"))
     for _ in range(60 if tier == "quick" else 700):
         covering = rng.random() < 0.4
         C, vals, fam = (gen.covering_instance if covering else gen.packing_instance)(rng, nmax=10)
